@@ -4,6 +4,9 @@ package main
 //
 //	filedef <filetype byte> <msg>...          → n=<k> <omsg>... again=<0|1>
 //
+//	filedefc <filetype byte> <opts> <message>...  → n=<k> <message>...           (real messages, syntax of msgcodec.go;
+//	                                                 options of the typed family; "panic" if Add / ToFIT panics)
+//
 // <msg>  = num:f1:f253:f254:tag:seed:dg:ft     (input message descriptor, see mkMesg)
 // <omsg> = num:f1:f253:f254:tag:dg             (canonical form of one output message)
 // f1/f253/f254 describe the fields with these numbers (the candidates for the sort key):
@@ -37,6 +40,7 @@ func init() {
 	families["filedef"] = genFileDef
 	executors["filedef"] = execFileDef
 	executors["filedefprobe"] = execFileDefProbe
+	executors["filedefc"] = execFileDefC
 }
 
 // ---------------------------------------------------------------- message descriptors
@@ -561,6 +565,7 @@ type ftInfo struct {
 	defaultDg uint64
 	defCands  [3]tsF // candidate fields 1/253/254 of the default file_id
 	dropped   []int // non-slot message numbers the file type does not give back
+	declOnly  []int // numbers with a declared typed field that Add nevertheless keeps as unrelated messages
 	unrelated []int // probed message numbers kept as unrelated messages
 }
 
@@ -719,6 +724,12 @@ func probeFileType(ft fileType) (ftInfo, error) {
 			info.unrelated = append(info.unrelated, n)
 		}
 	}
+	for n := range decl {
+		if !isSlot[n] && kind[n] != "dropped" {
+			info.declOnly = append(info.declOnly, n)
+		}
+	}
+	sort.Ints(info.declOnly)
 	// how the three candidate fields survive in each slot
 	mode := func(n int, which int) string {
 		mk := func(t tsF) mdesc {
@@ -913,7 +924,7 @@ func execFileDefProbe(args []string) string {
 	for _, in := range infos {
 		dn := fmt.Sprintf("ft%d", in.ft.b)
 		names = append(names, dn)
-		fmt.Fprintf(&sb, "def %s : FileType := {\n  name := \"%s\", gotype := \"%s\", ftype := %d, sortFrom := %d, defaultDg := 0x%016x,\n  d1 := %s, d253 := %s, d254 := %s,\n  dropped := %s,\n  slots := [\n", dn, in.ft.name, strings.TrimPrefix(fmt.Sprintf("%T", in.ft.fn()), "*"), in.ft.b, in.sortFrom, in.defaultDg, leanTsF(in.defCands[0]), leanTsF(in.defCands[1]), leanTsF(in.defCands[2]), leanNatList(in.dropped))
+		fmt.Fprintf(&sb, "def %s : FileType := {\n  name := \"%s\", gotype := \"%s\", ftype := %d, sortFrom := %d, defaultDg := 0x%016x,\n  d1 := %s, d253 := %s, d254 := %s,\n  dropped := %s, declOnly := %s,\n  slots := [\n", dn, in.ft.name, strings.TrimPrefix(fmt.Sprintf("%T", in.ft.fn()), "*"), in.ft.b, in.sortFrom, in.defaultDg, leanTsF(in.defCands[0]), leanTsF(in.defCands[1]), leanTsF(in.defCands[2]), leanNatList(in.dropped), leanNatList(in.declOnly))
 		for i, s := range in.slots {
 			sep := ","
 			if i == len(in.slots)-1 {
@@ -1090,6 +1101,208 @@ func genFileDef(emit func(string), tier string, rng *Rng) {
 		count("ft:" + in.ft.name)
 		count(fmt.Sprintf("len<%d", bucket(k)))
 		emit(fmt.Sprintf("filedef %d %s", in.ft.b, descsString(ds)))
+	}
+	genFileDefC(emit, tier, rng.Fork(0xC14C), infos)
+}
+
+// ---------------------------------------------------------------- the file types on real messages (filedefc)
+
+func printFITC(msgs []proto.Message) string {
+	var sb strings.Builder
+	fmt.Fprintf(&sb, "n=%d", len(msgs))
+	for i := range msgs {
+		sb.WriteByte(' ')
+		sb.WriteString(printMessage(&msgs[i]))
+	}
+	return sb.String()
+}
+
+// execFileDefC: Add every message, ToFIT(options), print every message in full. After the last Add the Fields slices of
+// the inputs are overwritten (the listener hands Add a pooled slice that is reused for the next message: a file must not
+// keep referring to it), and ToFIT is observed twice.
+func execFileDefC(args []string) string {
+	if len(args) < 2 {
+		return "bad-op"
+	}
+	b, err := strconv.Atoi(args[0])
+	if err != nil {
+		return "bad-op"
+	}
+	ft := fileTypeByByte(b)
+	opts, ok := parseTypedOpts(args[1])
+	if ft == nil || !ok {
+		return "bad-op"
+	}
+	msgs := make([]proto.Message, 0, len(args)-2)
+	for _, a := range args[2:] {
+		m, ok := parseMessage(a)
+		if !ok {
+			return "bad-op"
+		}
+		msgs = append(msgs, m)
+	}
+	f := ft.fn()
+	for i := range msgs {
+		f.Add(msgs[i])
+	}
+	for i := range msgs {
+		for j := range msgs[i].Fields {
+			msgs[i].Fields[j] = proto.Field{FieldBase: &proto.FieldBase{Name: "scribble", Num: 253, Scale: 1}, Value: proto.Uint32(0xdeadbeef)}
+		}
+	}
+	out := printFITC(f.ToFIT(opts).Messages)
+	if again := printFITC(f.ToFIT(opts).Messages); again != out {
+		return out + " again-differs"
+	}
+	return out
+}
+
+var fileDefCOpts = []string{"o:nil", "o:nil", "o:-,std", "o:i,std", "o:i,std", "o:-,zero", "o:i,unk", "o:-,alt", "o:i,alt"}
+
+// setKeyField: makes the message's sort-key field(s) follow the timestamp generator g (equal / invalid / missing / other type),
+// so that the order of the output depends on them. which = the key field number of this message number.
+func setKeyField(m *proto.Message, which byte, g tsGen, rng *Rng, t *mdTable) {
+	pick := g.pick(rng, true)
+	mk := func() proto.Field {
+		var f proto.Field
+		if t != nil && slotByNum(t, int(which)) != nil {
+			f = factory.StandardFactory().CreateField(m.Num, which)
+		} else {
+			f = unknownField(int(which), proto.Value{}, false)
+		}
+		if pick.kind == 'u' {
+			f.Value = proto.Uint32(pick.v)
+		} else {
+			f.Value = proto.Uint8(7)
+		}
+		return f
+	}
+	var kept []proto.Field
+	seen := false
+	for _, f := range m.Fields {
+		if f.FieldBase != nil && f.Num == which {
+			if pick.kind == '-' {
+				continue
+			}
+			if !seen || rng.Intn(3) == 0 {
+				nf := mk()
+				nf.FieldBase = f.FieldBase
+				f = nf
+			}
+			seen = true
+		}
+		kept = append(kept, f)
+	}
+	if !seen && pick.kind != '-' {
+		if rng.Bool() {
+			kept = append([]proto.Field{mk()}, kept...)
+		} else {
+			kept = append(kept, mk())
+		}
+	}
+	m.Fields = kept
+}
+
+func genFileDefC(emit func(string), tier string, rng *Rng, infos []ftInfo) {
+	ts, err := allTables()
+	if err != nil {
+		return // the mesgdef translator reports the error itself
+	}
+	byNum := map[int]*mdTable{}
+	for _, t := range ts {
+		byNum[int(t.num)] = t
+	}
+	pv := probeValues()
+	// fixed: for every file type the empty file (the zero-valued file_id) under every option
+	for i := range infos {
+		for _, o := range []string{"o:nil", "o:i,std", "o:i,unk", "o:-,alt"} {
+			emit(fmt.Sprintf("filedefc %d %s", infos[i].ft.b, o))
+		}
+	}
+	n := 2500
+	if tier == "thorough" {
+		n = 12000
+	}
+	unknownNums := []int{410, 1000, 0xFF00, 0xFFFE, 500}
+	for i := 0; i < n; i++ {
+		in := &infos[rng.Intn(len(infos))]
+		var k int
+		switch x := rng.Intn(20); {
+		case x < 8:
+			k = rng.Intn(5)
+		case x < 19:
+			k = rng.Intn(16)
+		default:
+			k = rng.Intn(60)
+		}
+		g := tsGen{base: uint32(rng.Intn(1 << 30)), width: []int{1, 2, 5, 50, 100000}[rng.Intn(5)]}
+		fileIdMode := rng.Intn(10)
+		parts := make([]string, 0, k)
+		for j := 0; j < k; j++ {
+			var num int
+			switch x := rng.Intn(20); {
+			case j == 0 && fileIdMode >= 2:
+				num = int(mesgnum.FileId)
+			case x < 9 && len(in.slots) > 3:
+				num = in.slots[3+rng.Intn(len(in.slots)-3)].num
+			case x < 11:
+				num = []int{int(mesgnum.DeveloperDataId), int(mesgnum.FieldDescription)}[rng.Intn(2)]
+			case x < 13:
+				num = []int{int(mesgnum.CoursePoint), int(mesgnum.Set)}[rng.Intn(2)]
+			case x < 16:
+				num = in.unrelated[rng.Intn(len(in.unrelated))]
+			case x < 18:
+				num = unknownNums[rng.Intn(len(unknownNums))]
+			case x == 18 && fileIdMode == 1:
+				num = int(mesgnum.FileId)
+			default:
+				num = in.slots[rng.Intn(len(in.slots))].num
+				if num == int(mesgnum.FileId) && fileIdMode != 1 {
+					num = int(mesgnum.Record)
+				}
+			}
+			t := byNum[num]
+			var m proto.Message
+			typedSlot := slotOfInfo(in, num) != nil
+			if t != nil {
+				nilEvery := 0
+				if typedSlot {
+					nilEvery = 150 // a typed message with a nil FieldBase: Add panics (outside the property; model and code must agree)
+				}
+				m = typedRandomMesg(t, rng, pv, nilEvery)
+			} else {
+				m.Num = typedef.MesgNum(num)
+				for c := rng.Intn(5); c > 0; c-- {
+					if rng.Bool() {
+						m.Fields = append(m.Fields, unknownField(rng.Intn(256), pv[rng.Intn(len(pv))], rng.Intn(4) == 0))
+					} else {
+						m.Fields = append(m.Fields, namedField(rng.Intn(256), pv[rng.Intn(len(pv))], rng.Intn(4) == 0))
+					}
+				}
+				m.DeveloperFields = randomDevFields(rng)
+			}
+			which := byte(proto.FieldNumTimestamp)
+			switch num {
+			case int(mesgnum.CoursePoint):
+				which = fieldnum.CoursePointTimestamp
+			case int(mesgnum.Set):
+				which = fieldnum.SetTimestamp
+			}
+			if rng.Intn(6) != 0 {
+				setKeyField(&m, which, g, rng, t)
+			}
+			if typedSlot {
+				count("c:typed")
+			} else if t != nil {
+				count("c:unrelated-profile")
+			} else {
+				count("c:unrelated-unknown")
+			}
+			parts = append(parts, printMessage(&m))
+		}
+		count("c:ft:" + in.ft.name)
+		count(fmt.Sprintf("c:len<%d", bucket(k)))
+		emit(strings.TrimRight(fmt.Sprintf("filedefc %d %s %s", in.ft.b, fileDefCOpts[rng.Intn(len(fileDefCOpts))], strings.Join(parts, " ")), " "))
 	}
 }
 
